@@ -135,7 +135,7 @@ def harness_json(case):
         inputs.append(d)
     j = {'id': case['id'], 'args': case.get('args') or cfg_args(case['cfg']) + case.get('extra_args', []),
          'inputs': inputs, 'files': case.get('files', False)}
-    for k in ('out_room', 'err_room', 'out_chunk', 'dir', 'links'):
+    for k in ('out_room', 'err_room', 'out_chunk', 'out_fail_kind', 'dir', 'links'):
         if case.get(k) is not None: j[k] = case[k]
     return json.dumps(j)
 
